@@ -42,7 +42,8 @@ deriving DecidableEq, Repr, Inhabited
 
 inductive Kind where
   | ctor | method | static | free | mutator | mutableRef | castCtor | castAssign | hash | stream
-  | stdmath | convertCopy | convertInplace | mapKernel | staticKernel | convertStatic
+  | stdmath | convertCopy | convertInplace | mapKernelTo | mapKernelFrom | staticKernelTo
+  | staticKernelFrom | convertStatic
   | modelCtor | modelAccessor | modelVirtual | modelString | modelType | modelCompare | modelHash
   | modelStream
 deriving DecidableEq, Repr, Inhabited
@@ -80,6 +81,19 @@ structure Entry where
   ret : Ty
   nIn : Nat
   tree : DTree              -- merged decision tree; each leaf lists the output slots in order
+deriving Repr, Inhabited
+
+/-- The enumerator arguments of an entry (unit type index, enumerator value), in order. -/
+def Entry.enumArgs (e : Entry) : List (Nat × Nat) :=
+  e.args.filterMap fun t => match t with | .enumv en v => some (en, v) | _ => none
+
+/-- The conversion kernels of one unit type in one format, indexed by enumerator value: the traced
+bodies of `Conversion<U, u>::ToStandard` / `FromStandard` as expressions in the single input
+`var 0`. -/
+structure UnitKernels where
+  standard : Nat
+  toStd : List Expr
+  fromStd : List Expr
 deriving Repr, Inhabited
 
 /-- A row of the generated class table. -/
